@@ -500,6 +500,257 @@ var propFalsifiers = map[string]func(w *World, fn *ssa.Function, r vcResult) *Co
 	"C06": panicFalsifier,
 	"C18": textFalsifier,
 	"C15": cliFalsifier,
+	"C08": semverFalsifier,
+	"C09": pep440Falsifier,
+}
+
+const pep440TestTmpl = `package pypi
+
+import (
+	"fmt"
+	"testing"
+)
+
+func TestVerifReplay(t *testing.T) {
+	e := &Ecosystem{}
+	var strs []string
+	for _, ep := range []string{"", "1!"} {
+		for _, rel := range []string{"1.0", "1.0.0", "1.1", "2"} {
+			for _, pre := range []string{"", "a1", "b2", "rc1"} {
+				for _, post := range []string{"", ".post1"} {
+					for _, dev := range []string{"", ".dev1"} {
+						for _, loc := range []string{"", "+abc"} {
+							strs = append(strs, ep+rel+pre+post+dev+loc)
+						}
+					}
+				}
+			}
+		}
+	}
+	var vs []*Version
+	var ok []string
+	for i, s := range strs {
+		_ = i
+		if v, err := e.NewVersion(s); err == nil {
+			vs = append(vs, v)
+			ok = append(ok, s)
+		}
+	}
+	for i, a := range vs {
+		for j, b := range vs {
+			fmt.Printf("VERIF-PAIR\t%%s\t%%s\t%%d\n", ok[i], ok[j], a.Compare(b))
+		}
+	}
+}
+`
+
+const pep440Py = `
+import sys
+from packaging.version import Version, InvalidVersion
+n = 0
+for line in sys.stdin:
+    if not line.startswith("VERIF-PAIR\t"):
+        continue
+    _, a, b, c = line.rstrip("\n").split("\t")
+    try:
+        va, vb = Version(a), Version(b)
+    except InvalidVersion:
+        continue
+    want = (va > vb) - (va < vb)
+    n += 1
+    got = int(c)
+    got = (got > 0) - (got < 0)
+    if got != want:
+        print("VERIF-CX Compare(%r, %r) = %s, PEP 440 (packaging) says %d" % (a, b, c, want))
+        sys.exit(0)
+print("VERIF-OK evals=%d" % n)
+`
+
+// pep440Falsifier compares the real pypi Compare with the reference packaging library (present in this sandbox as
+// python3-vt); it is a replay aid only and is skipped when the reference is absent.
+func pep440Falsifier(w *World, fn *ssa.Function, r vcResult) *Counterexample {
+	pkg := w.byShort["pypi"]
+	if pkg == nil {
+		return nil
+	}
+	out, _ := runOverlayTest(w, pkg, strings.ReplaceAll(pep440TestTmpl, "%%", "%"), 120*time.Second)
+	cx := &Counterexample{How: "real pypi NewVersion+Compare on a PEP 440 grammar grid, signs compared with packaging.version.Version"}
+	py, err := exec.LookPath("python3-vt")
+	if err != nil {
+		cx.Observed = "reference packaging library not available"
+		return cx
+	}
+	cmd := exec.Command(py, "-c", pep440Py)
+	cmd.Stdin = strings.NewReader(out)
+	var ob bytes.Buffer
+	cmd.Stdout = &ob
+	cmd.Stderr = &ob
+	cmd.Run()
+	cx.Output = truncate(lastLines(ob.String(), 5), 1500)
+	for _, ln := range strings.Split(ob.String(), "\n") {
+		if strings.HasPrefix(ln, "VERIF-CX ") {
+			cx.Confirmed = true
+			cx.Observed = strings.TrimPrefix(ln, "VERIF-CX ")
+			return cx
+		}
+	}
+	cx.Observed = "no difference observed"
+	return cx
+}
+
+const semverTestTmpl = `package %s
+
+import (
+	"fmt"
+	"strconv"
+	"strings"
+	"testing"
+)
+
+func verifIsNum(s string) bool {
+	if s == "" {
+		return false
+	}
+	for i := 0; i < len(s); i++ {
+		if s[i] < '0' || s[i] > '9' {
+			return false
+		}
+	}
+	return true
+}
+
+// SemVer 2.0.0 section 11 on pre-release strings ("" = release)
+func verifPreCmp(a, b string) int {
+	switch {
+	case a == "" && b == "":
+		return 0
+	case a == "":
+		return 1
+	case b == "":
+		return -1
+	}
+	x, y := strings.Split(a, "."), strings.Split(b, ".")
+	for i := 0; i < len(x) && i < len(y); i++ {
+		xn, yn := verifIsNum(x[i]), verifIsNum(y[i])
+		switch {
+		case xn && yn:
+			p, _ := strconv.ParseUint(x[i], 10, 64)
+			q, _ := strconv.ParseUint(y[i], 10, 64)
+			if p != q {
+				if p < q {
+					return -1
+				}
+				return 1
+			}
+		case xn:
+			return -1
+		case yn:
+			return 1
+		default:
+			if x[i] != y[i] {
+				if x[i] < y[i] {
+					return -1
+				}
+				return 1
+			}
+		}
+	}
+	switch {
+	case len(x) < len(y):
+		return -1
+	case len(x) > len(y):
+		return 1
+	}
+	return 0
+}
+
+func TestVerifReplay(t *testing.T) {
+	e := &Ecosystem{}
+	ids := []string{"0", "1", "2", "5", "10", "-5", "a", "b", "rc", "alpha", "beta", "a-b", "x-5", "A", "Z", "1a", "a1"}
+	pres := []string{""}
+	pres = append(pres, %s...)
+	for _, i := range ids {
+		pres = append(pres, i)
+		for _, j := range ids {
+			pres = append(pres, i+"."+j)
+		}
+	}
+	sgn := func(x int) int { if x < 0 { return -1 }; if x > 0 { return 1 }; return 0 }
+	type pv struct { pre string; v *Version }
+	var pool []pv
+	for _, p := range pres {
+		s := "%s1.0.0"
+		if p != "" {
+			s += "-" + p
+		}
+		for _, build := range []string{"", "+build.7"} {
+			if v, err := e.NewVersion(s + build); err == nil {
+				pool = append(pool, pv{p, v})
+			}
+		}
+	}
+	n := 0
+	for _, a := range pool {
+		for _, b := range pool {
+			n++
+			if got, want := sgn(a.v.Compare(b.v)), verifPreCmp(a.pre, b.pre); got != want {
+				fmt.Printf("VERIF-CX Compare(%%q, %%q) = %%d, SemVer 2.0.0 precedence says %%d\n", a.v.String(), b.v.String(), got, want)
+				return
+			}
+		}
+	}
+	nums := []string{"1.0.0", "1.0.1", "1.1.0", "2.0.0", "1.10.0", "1.2.0", "1.9.0", "0.0.0", "10.0.0", "9.0.0"}
+	key := func(s string) [3]int { var k [3]int; for i, f := range strings.Split(s, ".") { k[i], _ = strconv.Atoi(f) }; return k }
+	for _, a := range nums {
+		for _, b := range nums {
+			va, ea := e.NewVersion("%s" + a)
+			vb, eb := e.NewVersion("%s" + b)
+			if ea != nil || eb != nil {
+				fmt.Printf("VERIF-CX plain version rejected: %%q %%v / %%q %%v\n", a, ea, b, eb)
+				return
+			}
+			ka, kb := key(a), key(b)
+			want := 0
+			for i := 0; i < 3 && want == 0; i++ {
+				if ka[i] < kb[i] { want = -1 } else if ka[i] > kb[i] { want = 1 }
+			}
+			n++
+			if sgn(va.Compare(vb)) != want {
+				fmt.Printf("VERIF-CX Compare(%%q, %%q) = %%d, numeric order says %%d\n", a, b, va.Compare(vb), want)
+				return
+			}
+		}
+	}
+	fmt.Printf("VERIF-OK evals=%%d pool=%%d\n", n, len(pool))
+}
+`
+
+func semverFalsifier(w *World, fn *ssa.Function, r vcResult) *Counterexample {
+	pkg := fn.Pkg
+	if pkg == nil || pkg.Pkg.Scope().Lookup("Ecosystem") == nil {
+		return nil
+	}
+	prefix := ""
+	if pkg.Pkg.Name() == "golang" {
+		prefix = "v"
+	}
+	extra := "[]string{}"
+	if pkg.Pkg.Name() == "golang" {
+		// the three pseudo-version spellings (their SemVer reading is just their pre-release text)
+		extra = `[]string{"20200101000000-abcdefabcdef", "20210101000000-abcdefabcdef", "0.20200101000000-abcdefabcdef", "0.20210101000000-abcdefabcdef", "rc.0.20200101000000-abcdefabcdef", "alpha.0.20200101000000-abcdefabcdef"}`
+	}
+	src := fmt.Sprintf(semverTestTmpl, pkg.Pkg.Name(), extra, prefix, prefix, prefix)
+	out, _ := runOverlayTest(w, pkg, src, 120*time.Second)
+	cx := &Counterexample{How: "real NewVersion+Compare on 1.0.0-<identifiers> against SemVer 2.0.0 section 11 precedence computed in the harness", Output: truncate(lastLines(out, 10), 2000)}
+	for _, ln := range strings.Split(out, "\n") {
+		if strings.HasPrefix(ln, "VERIF-CX ") {
+			cx.Confirmed = true
+			cx.Observed = strings.TrimPrefix(ln, "VERIF-CX ")
+			return cx
+		}
+	}
+	cx.Observed = "no difference observed"
+	return cx
 }
 
 // cliFalsifier runs the real CLI entry point and compares it with direct library calls for every ecosystem.
